@@ -326,3 +326,13 @@ def run(facts, rep, ctx):
     round5.ob1(facts, rep)
     # Match/Subst labels follow the configured ambiguity only if a pattern symbol always matches itself (rule SB-11 of C09)
     round2.sb11(facts, rep)
+
+
+_run_before_round6 = run
+
+
+def run(facts, rep, ctx):
+    """rules added after the fifth seeding round (rules/round6.py)"""
+    _run_before_round6(facts, rep, ctx)
+    from . import round6
+    round6.cf2(facts, rep, ['pattern_matching::myers::'], 100)
